@@ -757,7 +757,7 @@ def c12_jobs(tier, seed):
     ind2 = dict(tag='', w1='', b0='  ', b1='  ', b2='  ', w2='', ctag='')
     ind_nested = dict(tag='  ', w1='  ', b0='    ', b1='    ', b2='    ', w2='  ', ctag='  ')
     tabs = dict(tag='\t', w1='\t', b0='\t\t', b1='\t\t', b2='\t\t', w2='\t', ctag='\t')
-    hole_sets = [dict(tag=1, b0=2, b1=2), dict(b0=1, b1=3, b2=1), dict(tag=2, b1=2, b0t=1), dict(w1=2, w2=2, b0=2), dict(tag=2, ctag=2, b2=2)]
+    hole_sets = [dict(tag=1, b0=2, b1=2), dict(b0=1, b1=3, b2=1), dict(tag=2, b1=2, b0t=1), dict(w1=2, w2=2, b0=2), dict(tag=2, ctag=2, b2=2), dict(b1=2, b2=1), dict(b1=1, b0t=2)]
     if tier != 'quick':
         hole_sets += [dict(tag=2, b0=3, b1=3, b2=2), dict(tag=3, b0=2, b1=2, ctag=1), dict(b0=4, b1=4), dict(tag=1, w1=1, b0=2, b1=2, w2=1, ctag=1)]
     for fname, fixed in (('none', {}), ('2sp', ind2), ('nested2sp', ind_nested), ('tabs', tabs)):
